@@ -24,7 +24,7 @@ ASSUMPTIONS = ['in-memory ZooKeeper fake; a crash = the k-th mutating call of th
                'virtual clock with zero tick (time.time constant during a run); node mtimes set by the harness',
                'tempfile.tempdir redirected to a per-case directory (a dying archiver leaks its temp file by nature)']
 BUDGET = {'quick': (14, 22.0), 'thorough': (260, 280.0)}
-REQUIRED_REACH = {'*': ['cuts', 'cuts_mid_run', 'batches_archived', 'young_or_scheduled_kept', 'history_pruned', 'download_batch_checked', 'bulky_cases']}
+REQUIRED_REACH = {'*': ['trace_reader_checked', 'trace_reader_instance_in_non_adjacent_snapshots', 'cuts', 'cuts_mid_run', 'batches_archived', 'young_or_scheduled_kept', 'history_pruned', 'download_batch_checked', 'bulky_cases']}
 
 NOW = 1700000000.0
 
@@ -42,9 +42,18 @@ def rows_of(data, table):
     return rows
 
 
+class _Stop(BaseException):
+    pass
+
+
 def run(ctx):
+    import time
+    from treadmill import context
     from treadmill import zknamespace as z
+    from treadmill.sproc import trace as sproc_trace
     from treadmill.trace import _zk as trace_zk
+    from . import c15
+    cleanup_cmd = sproc_trace.init().commands['cleanup']
     from treadmill.trace.app import zk as app_zk
     from treadmill.trace.server import zk as server_zk
 
@@ -67,8 +76,11 @@ def run(ctx):
             expires = rng.choice([60, 300, 300])
             batch = rng.randint(1, 7)
             fbatch = rng.randint(1, 5)
-            sbatch = rng.randint(1, 6)
+            sbatch = batch                     # the service archives server events with the trace batch size
             maxhist = rng.randint(1, 4)
+            fmaxhist = rng.randint(1, 4)
+            # finished records have their own expiry
+            fexpires = rng.choice([expires, expires, 30, 600, 3600])
             insts = ['proid.app%d#%010d' % (rng.randint(0, 2), rng.randrange(10 ** 4)) for _ in range(rng.randint(4, 12))]
             insts = sorted(set(insts))
             # one case per shard archives a batch whose compressed snapshot is well above 1 MB (long event data)
@@ -89,13 +101,14 @@ def run(ctx):
                     import string as _string
                     for n in range(1150):
                         data = ''.join(rng.choice(_string.ascii_letters + _string.digits) for _ in range(520))
-                        adm.create(z.path.trace(inst[0], '%s,hostx,service_exited,%s' % (NOW - expires - 5000 - n, data)), b'')
+                        adm.create(z.path.trace(inst[0], '%s,hostx,pending,%s' % (NOW - expires - 5000 - n, data)), b'')
                 for i in insts:
                     for n in range(rng.randint(0, 9)):
                         off = rng.choice([-5, -0.5, 0.5, 5, -1000, -100000, 100, 250]) - (3000 if round_no == 0 else 0)
                         ts = NOW - expires + off + rng.random() * 0.01
-                        etype = rng.choice(['scheduled', 'pending', 'configured', 'service_running', 'finished'])
-                        node = '%s,%s,host%d,%s,%s' % (i, ts, rng.randint(0, 3), etype, 'x%d' % n)
+                        # event type and data as the product writes them (the archiver's pruning passes parse them)
+                        _ts, _src, _inst, etype, edata, _payload = c15.gen_event(rng)[3].to_data()
+                        node = '%s,%s,host%d,%s,%s' % (i, ts, rng.randint(0, 3), etype, edata)
                         path = z.path.trace(i, node.split(',', 1)[1])
                         if not adm.exists(path):
                             adm.create(path, b'')
@@ -105,7 +118,7 @@ def run(ctx):
                     if (i not in scheduled and rng.random() < 0.6 or i in scheduled and rng.random() < 0.35) \
                             and not adm.exists(z.path.finished(i)):
                         adm.create(z.path.finished(i), ('{"state": "finished", "n": %d}' % rng.randint(0, 99)).encode())
-                        srv.nodes[z.path.finished(i)].mtime = int((NOW - expires + rng.choice([-5, -0.5, 0.5, 5, -1000, 200])
+                        srv.nodes[z.path.finished(i)].mtime = int((NOW - fexpires + rng.choice([-5, -0.5, 0.5, 5, -1000, 200])
                                                                    - (3000 if round_no == 0 else 0)) * 1000)
                 for s in range(rng.randint(0, 10)):
                     host = 'srv%d' % rng.randint(0, 3)
@@ -115,12 +128,24 @@ def run(ctx):
                         adm.create(path, b'')
 
             def archiver(client):
-                app_zk.cleanup_trace(client, batch, expires)
-                app_zk.cleanup_finished(client, fbatch, expires)
-                server_zk.cleanup_server_trace(client, sbatch)
-                app_zk.cleanup_trace_history(client, maxhist)
-                app_zk.cleanup_finished_history(client, maxhist)
-                server_zk.cleanup_server_trace_history(client, maxhist)
+                """One iteration of the real archiver service (treadmill.sproc.trace `cleanup`, run without the
+                election lock): its loop is stopped at the sleep between two iterations."""
+                context.GLOBAL.zk._conn = client       # pylint: disable=protected-access
+                real_sleep = time.sleep
+
+                def stop(_secs):
+                    raise _Stop()
+                time.sleep = stop
+                try:
+                    cleanup_cmd.callback(
+                        interval=60, trace_evictions_max_count=1000, trace_service_events_max_count=1000,
+                        trace_batch_size=batch, trace_expire_after=expires, trace_history_max_count=maxhist,
+                        finished_batch_size=fbatch, finished_expire_after=fexpires, finished_history_max_count=fmaxhist,
+                        no_lock=True)
+                except _Stop:
+                    pass
+                finally:
+                    time.sleep = real_sleep
 
             # round 0: an earlier archiving pass leaves history snapshots behind
             populate(0)
@@ -149,11 +174,11 @@ def run(ctx):
                 if inst in scheduled or float(ts) >= NOW - expires:
                     must_stay.add(p)
             for p in before[1]:
-                if srv.nodes[p].mtime / 1000.0 >= NOW - expires:
+                if srv.nodes[p].mtime / 1000.0 >= NOW - fexpires:
                     must_stay.add(p)
 
             def evaluate(tag, k, total):
-                case = dict(case=idx, cut=k, of=total, batch=batch, fbatch=fbatch, sbatch=sbatch, maxhist=maxhist, expires=expires)
+                case = dict(case=idx, cut=k, of=total, batch=batch, fbatch=fbatch, sbatch=sbatch, maxhist=maxhist, fmaxhist=fmaxhist, expires=expires, fexpires=fexpires)
                 tr, fin, st = live_sets()
                 # rows of every snapshot created so far in this run (from the write log) and of those present before
                 archived = {}
@@ -187,9 +212,9 @@ def run(ctx):
                     removed = [n for n in names_ever if n not in nowh]
                     if removed:
                         ctx.count('history_pruned')
-                        keep = names_ever[-maxhist:]
+                        keep = names_ever[-(fmaxhist if h == z.FINISHED_HISTORY else maxhist):]
                         if any(n in keep for n in removed) or removed != names_ever[:len(removed)]:
-                            ctx.violation('history-pruned-wrong-snapshots', '%s: had %s, removed %s with max_count %d' % (h, names_ever, removed, maxhist), case=case)
+                            ctx.violation('history-pruned-wrong-snapshots', '%s: had %s, removed %s with max_count %d' % (h, names_ever, removed, fmaxhist if h == z.FINISHED_HISTORY else maxhist), case=case)
                 return archived, created
 
             # un-cut run: count the writes
@@ -220,6 +245,31 @@ def run(ctx):
                 ctx.count('download_batch_checked')
                 if not set(want) <= set(got):
                     ctx.violation('download-batch-misses-events', '%s for %s: archived %s, download_batch returned %s' % (snap, inst, want, got), case=dict(case=idx))
+            # the product's own reader (AppTraceLoop._process_db_events, what `treadmill trace` uses for an
+            # instance that is no longer scheduled) is handed every archived event of the instance that sits
+            # in a present snapshot; observed at _process_events, before its ordering / duplicate filter
+            per_inst = {}
+            for path, snap in archived.items():
+                if os.path.dirname(snap) == z.TRACE_HISTORY and os.path.basename(snap) in present:
+                    per_inst.setdefault(os.path.basename(path).split(',')[0], {}).setdefault(os.path.basename(snap), []).append(os.path.basename(path))
+            order = sorted(present)
+            for inst in sorted(per_inst)[:6]:
+                if inst in scheduled:
+                    continue
+                handed = []
+                loop = app_zk.AppTraceLoop(srv.client('trace-reader'), inst, None)
+                loop._process_events = lambda events, _ctx, handed=handed: handed.extend(events)     # pylint: disable=protected-access
+                loop._process_db_events(None)          # pylint: disable=protected-access
+                want = sorted(n for names in per_inst[inst].values() for n in names)
+                ctx.count('trace_reader_checked')
+                idxs = sorted(order.index(sn) for sn in per_inst[inst])
+                if len(idxs) > 1 and idxs[-1] - idxs[0] + 1 > len(idxs):
+                    ctx.count('trace_reader_instance_in_non_adjacent_snapshots')
+                if not set(want) <= set(handed):
+                    miss = sorted(set(want) - set(handed))
+                    ctx.violation('trace-reader-misses-archived-events', '%s: %d archived events in present snapshots %s, the reader was '
+                                  'handed %d; missing e.g. %s' % (inst, len(want), sorted(per_inst[inst]), len(set(handed) & set(want)), miss[0]),
+                                  case=dict(case=idx))
             # every write is a crash point
             cut_points = range(1, total + 1)
             if bulky:
